@@ -137,6 +137,12 @@ Theorem C01_history_oracle_sound_rules : forall cmds obs, oracle_ts cmds = true 
 Proof. exact history_oracle_sound_rules. Qed.
 Print Assumptions C01_history_oracle_sound_rules.
 
+(* range reads: the scan checker of the oracle differential accepts exactly the complete answers *)
+Theorem C01_scan_ok_exact : forall H o, scan_ok H o = true <->
+  so_res o = flat_map (fun k => match scan_expect H o k with Some v => [(k, v)] | None => [] end) (so_keys o).
+Proof. exact scan_ok_exact. Qed.
+Print Assumptions C01_scan_ok_exact.
+
 (* ------------------------------------------------------------------ non-vacuity *)
 Definition T (r : N) : N := r * 262144.
 Definition ex_cmds : list cmd :=
@@ -174,6 +180,10 @@ Definition ex_obs : list read_obs :=
 Example ex_si_ok : si_ok (full_history (run ex_cmds)) ex_obs = true
   /\ si_ok (full_history (run ex_cmds)) [mkObs (T 5) 1 None (Some 33)] = false      (* a stale / future read is refused *)
   /\ si_ok (full_history (run ex_cmds)) [mkObs (T 9) 1 None None] = false.
+Proof. vm_compute. repeat split. Qed.
+Example ex_scan_ok : scan_ok (full_history (run ex_cmds)) (mkScan (T 9) [1; 2; 3] [] [(1, 33)]) = true
+  /\ scan_ok (full_history (run ex_cmds)) (mkScan (T 16) [1; 2; 3] [(2, None)] [(1, 33); (3, 66)]) = true
+  /\ scan_ok (full_history (run ex_cmds)) (mkScan (T 16) [1; 2; 3] [] [(1, 33); (3, 66)]) = false.     (* k2 missing *)
 Proof. vm_compute. repeat split. Qed.
 Example ex_served : served_by_rules ex_cmds (mkObs (T 5) 1 None (Some 17)).
 Proof. eapply (sr_store ex_cmds _ 2%nat [] (Some (17, T 3))); try reflexivity. vm_compute. discriminate. Qed.
